@@ -72,6 +72,7 @@ type lworld struct {
 	head     atomic.Uint64
 	accts    map[phase0.ValidatorIndex]e2wtypes.Account
 	rootFail func(slot uint64) bool // the node cannot give its head root in these slots
+	refuse   atomic.Bool            // the node refuses sync committee messages
 }
 
 func (w *lworld) BeaconBlockRoot(context.Context, *api.BeaconBlockRootOpts) (*api.Response[*phase0.Root], error) {
@@ -83,6 +84,9 @@ func (w *lworld) BeaconBlockRoot(context.Context, *api.BeaconBlockRootOpts) (*ap
 	return &api.Response[*phase0.Root]{Data: &root, Metadata: map[string]any{}}, nil
 }
 func (w *lworld) SubmitSyncCommitteeMessages(context.Context, []*altair.SyncCommitteeMessage) error {
+	if w.refuse.Load() {
+		return errors.New("scripted refusal of sync committee messages")
+	}
 	return nil
 }
 func (w *lworld) SubmitSyncCommitteeSubscriptions(context.Context, []*apiv1.SyncCommitteeSubscription) error {
@@ -539,7 +543,12 @@ func directLong(c *harness.Ctx, id string, r *rand.Rand, slots int) {
 		return
 	}
 	// the pattern of this run
-	pattern := []string{"random-gaps", "every-other-slot", "outages", "membership-gaps", "all"}[r.Intn(5)]
+	patterns := []string{"random-gaps", "every-other-slot", "outages", "membership-gaps", "all", "messages-refused"}
+	pattern := patterns[r.Intn(len(patterns))]
+	var n int
+	if k, _ := fmt.Sscanf(id, "direct%d", &n); k == 1 && n < len(patterns) {
+		pattern = patterns[n] // the first histories of a run cover every pattern
+	}
 	failing := false
 	member := true
 	var aggregations, messages, attestations, gaps int
@@ -561,7 +570,11 @@ func directLong(c *harness.Ctx, id string, r *rand.Rand, slots int) {
 			if s%64 == 0 {
 				member = r.Intn(2) == 0
 			}
+		case "messages-refused":
+			// the node refuses the messages for long stretches (it is syncing): the slot's record is written, the message is not out
+			w.refuse.Store(i%600 < 450)
 		default:
+			w.refuse.Store(i%900 >= 500 && i%900 < 800)
 			if r.Intn(40) == 0 {
 				failing = !failing
 			}
